@@ -29,6 +29,7 @@ import (
 	"github.com/uber/kraken/core"
 	"github.com/uber/kraken/lib/store"
 	"github.com/uber/kraken/lib/torrent/storage"
+	"github.com/uber/kraken/tracker/metainfoclient"
 	"github.com/uber/kraken/utils/log"
 	"github.com/uber/kraken/utils/verifhlib"
 )
@@ -141,11 +142,12 @@ type c03env struct {
 	n     int
 	last  []byte // file as last reported
 	first bool
+	ta    *TorrentArchive // archive mode: torrents come from CreateTorrent / GetTorrent, no gates
 }
 
 var c03counter int
 
-func c03setup(tmp string, blob []byte, pl int) *c03env {
+func c03setup(tmp string, blob []byte, pl int, archive bool) *c03env {
 	c03counter++
 	dir := filepath.Join(tmp, fmt.Sprintf("c%d", c03counter))
 	cfg := store.CADownloadStoreConfig{
@@ -169,17 +171,39 @@ func c03setup(tmp string, blob []byte, pl int) *c03env {
 	if err != nil {
 		panic(err)
 	}
-	if err := cads.CreateDownloadFile(d.Hex(), int64(len(blob))); err != nil {
-		panic(err)
-	}
 	e := &c03env{dir: dir, cads: cads, mi: mi, blob: blob, pl: pl, n: mi.NumPieces(), first: true}
 	e.gs = &c03store{CADownloadStore: cads}
 	e.last = make([]byte, len(blob))
+	if archive {
+		// torrent_archive.go: metainfo download, CreateDownloadFile, TorrentMeta sidecar, NewTorrent
+		tc := metainfoclient.NewTestClient()
+		if err := tc.Upload(mi); err != nil {
+			panic(err)
+		}
+		e.ta = NewTorrentArchive(tally.NoopScope, cads, tc)
+		st, err := e.ta.CreateTorrent("ns", d)
+		if err != nil {
+			panic(fmt.Sprintf("CreateTorrent: %s", err))
+		}
+		e.t = st.(*Torrent)
+		return e
+	}
+	if err := cads.CreateDownloadFile(d.Hex(), int64(len(blob))); err != nil {
+		panic(err)
+	}
 	e.reopen()
 	return e
 }
 
 func (e *c03env) reopen() {
+	if e.ta != nil {
+		st, err := e.ta.GetTorrent("ns", e.mi.Digest())
+		if err != nil {
+			panic(fmt.Sprintf("GetTorrent: %s", err))
+		}
+		e.t = st.(*Torrent)
+		return
+	}
 	t, err := NewTorrent(e.gs, e.mi)
 	if err != nil {
 		panic(fmt.Sprintf("NewTorrent: %s", err))
@@ -248,10 +272,24 @@ func (e *c03env) observe(gate, res int) string {
 	for _, p := range t.pieces {
 		st = append(st, int(p.status))
 	}
-	var psm pieceStatusMetadata
-	if err := e.cads.Any().GetMetadata(e.name(), &psm); err == nil {
-		for _, p := range psm.pieces {
-			sc = append(sc, int(p.status))
+	if e.ta != nil {
+		// TorrentArchive.Stat: the bitfield a tracker/peer is told, read from the sidecar
+		if info, err := e.ta.Stat("ns", e.mi.Digest()); err == nil {
+			bf := info.Bitfield()
+			for i := 0; i < int(bf.Len()); i++ {
+				if bf.Test(uint(i)) {
+					sc = append(sc, 1)
+				} else {
+					sc = append(sc, 0)
+				}
+			}
+		}
+	} else {
+		var psm pieceStatusMetadata
+		if err := e.cads.Any().GetMetadata(e.name(), &psm); err == nil {
+			for _, p := range psm.pieces {
+				sc = append(sc, int(p.status))
+			}
 		}
 	}
 	var file []byte
@@ -363,6 +401,8 @@ type c03case struct {
 	blob  []byte
 	ths   []*c03thr
 	free  bool
+	arch  bool // through TorrentArchive, callers strictly one after the other, reopen (GetTorrent) in between
+	unit  bool // also probe the piece status machine directly
 	hops  []c03hop // scheduled mode: macro steps; callers still in flight afterwards are drained in id order
 	kind  string
 	tags  []string
@@ -392,11 +432,35 @@ func (e *c03env) advance(th *c03thr) c03ev {
 }
 
 func c03run(ctx *verifhlib.Ctx, cs *c03case) {
-	e := c03setup(ctx.Tmp, cs.blob, cs.pl)
+	e := c03setup(ctx.Tmp, cs.blob, cs.pl, cs.arch)
 	defer e.close()
 	var steps, hist []string
 	accepted := 0
-	if cs.free {
+	if cs.arch {
+		for _, h := range cs.hops {
+			if h.k < 0 {
+				e.reopen()
+				hist = append(hist, "gettorrent")
+			}
+		}
+		// hops only say after which callers GetTorrent is called again
+		re := map[int]bool{}
+		for _, h := range cs.hops {
+			if h.k >= 0 {
+				re[h.k] = true
+			}
+		}
+		for k, th := range cs.ths {
+			th.started = true
+			th.res = e.call(th)
+			th.done = true
+			if re[k] {
+				e.reopen()
+				hist = append(hist, "gettorrent")
+			}
+		}
+		hist = append(hist, "archive")
+	} else if cs.free {
 		var wg sync.WaitGroup
 		start := make(chan struct{})
 		for _, th := range cs.ths {
@@ -476,11 +540,49 @@ func c03run(ctx *verifhlib.Ctx, cs *c03case) {
 	if cs.free {
 		mode = 1
 	}
-	coq := fmt.Sprintf("mkcase %d %s %s %s %d %s %s %s", cs.pl, c03bytes(cs.blob), verifhlib.List(sums),
-		verifhlib.List(ws), mode, verifhlib.List(steps), fo, fin)
+	if cs.arch {
+		mode = 2
+	}
+	unit := "[]"
+	if cs.unit {
+		unit = c03unit()
+	}
+	coq := fmt.Sprintf("mkcase %d %s %s %s %d %s %s %s %s", cs.pl, c03bytes(cs.blob), verifhlib.List(sums),
+		verifhlib.List(ws), mode, verifhlib.List(steps), fo, fin, unit)
 	sample := map[string]interface{}{"pl": cs.pl, "blob_len": len(cs.blob), "pieces": e.n, "mode": mode,
 		"callers": strings.Join(ws, " | "), "steps": len(steps), "final": fo, "fin": fin}
 	ctx.Emit(verifhlib.Case{Coq: coq, NT: accepted >= 1, Kind: cs.kind, Hist: hist, Sample: sample, Tags: cs.tags})
+}
+
+// c03unit probes the piece status machine (pieces.go:89-128) directly for each status byte:
+// complete(), dirty(), tryMarkDirty() and the status left by tryMarkDirty / markEmpty / markComplete.
+// Codes as Model/C03.v pc_code: 3 = complete, 4 = dirty/conflict, 10 = acquired, 11 / 12 = "no".
+func c03unit() string {
+	var rows []string
+	for b := 0; b < 3; b++ {
+		p := &piece{status: pieceStatus(b)}
+		isC, isD := 11, 12
+		if p.complete() {
+			isC = 3
+		}
+		if p.dirty() {
+			isD = 4
+		}
+		try := 10
+		d, c := p.tryMarkDirty()
+		if d {
+			try = 4
+		} else if c {
+			try = 3
+		}
+		after := int(p.status)
+		q := &piece{status: pieceStatus(b)}
+		q.markEmpty()
+		q2 := &piece{status: pieceStatus(b)}
+		q2.markComplete()
+		rows = append(rows, verifhlib.Ns([]int{isC, isD, try, after, int(q.status), int(q2.status)}))
+	}
+	return verifhlib.List(rows)
 }
 
 // ---- generators ----
@@ -637,7 +739,7 @@ func c03random(r *verifhlib.Rng, tier string) *c03case {
 		if k == "index" {
 			i = []int{-1, -2, n, n + 1, n + 2, -1 << 31}[r.Intn(6)]
 		}
-		if k != "index" && mode < 80 && r.Chance(2) {
+		if k != "index" && (mode < 80 || mode >= 90) && r.Chance(2) {
 			k = "lying"
 			lying = true
 		}
@@ -674,9 +776,17 @@ func c03random(r *verifhlib.Rng, tier string) *c03case {
 			// bias towards a small window of callers so that they really overlap
 			cs.hops = append(cs.hops, c03hop{r.Intn(len(ths))})
 		}
-	default:
+	case mode < 90:
 		cs.kind = "free"
 		cs.free = true
+	default: // through TorrentArchive.CreateTorrent / GetTorrent / Stat, one call after the other
+		cs.kind = "archive"
+		cs.arch = true
+		for k := range ths {
+			if r.Chance(15) {
+				cs.hops = append(cs.hops, c03hop{k})
+			}
+		}
 	}
 	if lying {
 		cs.kind += "-lying"
@@ -794,12 +904,16 @@ func c03driver(ctx *verifhlib.Ctx) {
 		}
 		return
 	}
-	for _, cs := range c03seeds() {
-		// the same callers free-running
+	for i, cs := range c03seeds() {
+		// the same callers free-running, and one after the other through the TorrentArchive
 		f := c03clone(cs)
 		f.free, f.hops, f.kind = true, nil, cs.kind+"-free"
+		a := c03clone(cs)
+		a.arch, a.hops, a.kind = true, []c03hop{{0}, {1}}, cs.kind+"-archive"
+		cs.unit = i == 0
 		c03run(ctx, cs)
 		c03run(ctx, f)
+		c03run(ctx, a)
 	}
 	if ctx.Tier == "thorough" {
 		// exhaustive small scope: two pieces, every pair/triple of callers from a small alphabet,
